@@ -408,9 +408,12 @@ def queries(tier, seed):
             qs.append(q_step(st, "n2", 6))
     if tier == "thorough":
         gens = [k for k in STEPS if k.startswith("iter_")]
+        seen2 = set()
         for g in gens:
             for st in ("read_abs", "read_rel", "pad", "set_channel", "transpose", "normalise", "add_abs", "copy", "refresh",
                        "iter_rel_edit_break", "iter_abs_edit_break"):
-                qs.append(q_two_steps(g, st, "n1", 6))
-                qs.append(q_two_steps(st, g, "n1", 6))
+                for a_, b_ in ((g, st), (st, g)):
+                    if (a_, b_) not in seen2:
+                        seen2.add((a_, b_))
+                        qs.append(q_two_steps(a_, b_, "n1", 6))
     return qs
